@@ -598,6 +598,20 @@ fn c14_mult_{suf}() {{
     let got = match rung_f64(i, n as f64) {{ Some(v) => Some(v), None => rung_u64(i, n as u64) }};
     kani::cover!(true);
     assert!(got == Some(expected), "OBL C14.ladder.mult: <n>{suf} denotes n x {mult} bytes");
+}}
+// thorough tier: the same for every n < 2^32 (about 140 s per rung)
+#[kani::proof]
+#[kani::unwind({n + 2})]
+fn c14_mult32_{suf}() {{
+    let i = first_matching_rung("{suf}");
+    kani::assume(i.is_some());
+    let i = i.unwrap();
+    let n: u32 = kani::any();
+    kani::assume((n as u64) < (1u64 << 53) / ({mult}));
+    let expected: u64 = (n as u64) * ({mult});
+    let got = match rung_f64(i, n as f64) {{ Some(v) => Some(v), None => rung_u64(i, n as u64) }};
+    kani::cover!(true);
+    assert!(got == Some(expected), "OBL C14.ladder.mult32: <n>{suf} denotes n x {mult} bytes");
 }}''')
     out.append('''
 #[kani::proof]
